@@ -652,6 +652,31 @@ def run_fault(case, mplan, keymode, token, token2, fault, entry):
             warnings.simplefilter("ignore")
             ko = OctKey.import_key(raw if fault["variant"] % 2 else raw.decode("latin-1")) if all(b < 128 for b in raw) or fault["variant"] % 2 else OctKey.import_key(raw)
         return judge(entry, token, p2, "key", payload, keyarg_override=ko)
+    if fault["kind"] == "append-b64false-signature":
+        # a general JSON JWS gains one more genuine signature by the same signer, made under b64=false over the payload TEXT as it
+        # stands in the token: the signatures now disagree about what the payload is (RFC 7797 3: b64 must be the same for all)
+        if not (isinstance(token, dict) and "signatures" in token and token["signatures"] and mplan["b64"] is None):
+            return "n/a"
+        m0 = mplan["members"][0]
+        e0 = token["signatures"][0]
+        try:
+            prot0 = json.loads(rb.decode(e0["protected"])) if "protected" in e0 else {}
+        except ValueError:
+            return "n/a"
+        if "alg" not in prot0 and "alg" not in (e0.get("header") or {}):
+            return "n/a"
+        prot = {**prot0, "b64": False, "crit": list(prot0.get("crit", [])) + ["b64"]}
+        if "alg" not in prot:
+            prot["alg"] = m0["alg"]
+        unprot = {a: b for a, b in (e0.get("header") or {}).items() if a not in prot} or None
+        sig = rjws.make_json_signature(json.dumps(prot, separators=(",", ":")).encode(), unprot, token["payload"].encode("utf-8"), m0["alg"],
+                                       gk.key_from_record(m0["key"]), b64_payload=False)
+        ft = copy.deepcopy(token)
+        if fault.get("where") == "first":
+            ft["signatures"].insert(0, sig)
+        else:
+            ft["signatures"].append(sig)
+        return judge(entry, ft, mplan, keymode, payload)
     if fault["kind"] == "es-other-curve":
         # the verifier's EC key lives on another curve than the algorithm names; the token was signed with that key (ECDSA with the
         # algorithm's hash on the key's curve): not a signature of the named algorithm
@@ -814,11 +839,11 @@ def run_shard(ctx, spec):
                             ctx.finding(finding_key(mplan, fault, r2[0]), r2[1], {"case": case, "fault": fault, "entry": e, "token": token, "token2": token2})
         # key rotation inside a long-lived key set, PSS signatures with a foreign salt length
         for i in range(len(mplan["members"])):
-            more = [{"kind": "keysub-inplace", "i": i}] + ([{"kind": "keysub-blanks", "i": i, "variant": v} for v in range(4)] if algs[i].startswith("HS") else []) + ([{"kind": "pss-salt", "i": i, "salt": s_} for s_ in (0, 20, 33, 64)] if algs[i].startswith("PS") else []) + \
+            more = [{"kind": "keysub-inplace", "i": i}] + ([{"kind": "append-b64false-signature", "where": w} for w in ("last", "first")] if i == 0 else []) + ([{"kind": "keysub-blanks", "i": i, "variant": v} for v in range(4)] if algs[i].startswith("HS") else []) + ([{"kind": "pss-salt", "i": i, "salt": s_} for s_ in (0, 20, 33, 64)] if algs[i].startswith("PS") else []) + \
                    ([{"kind": "es-other-curve", "i": i, "crv": c_} for c_ in ("P-256", "P-384", "P-521", "secp256k1")] if algs[i].startswith("ES") else [])
             for fault in more:
                 for e in ents:
-                    if e.startswith("jwt.decode") or e.endswith(("+again", "+otherpayload", "+registry")):
+                    if e.startswith("jwt.decode") or e.endswith(("+again", "+otherpayload")) or (e.endswith("+registry") and fault["kind"] != "append-b64false-signature"):
                         continue
                     r = run_fault(case, mplan, keymode, token, token2, fault, e)
                     if r == "n/a":
